@@ -485,6 +485,17 @@ class ManagedBSE:
                     if s.M.feasible(sc, z(binop('Ne', S.f[0], I(0)))): out.append(s.vio('C06', f'status() of the closed pool reports max_size {S.f[0]!r}', st))
                     if s.M.feasible(sc, z(binop('Ne', S.f[2], I(0)))): out.append(s.vio('C06', f'status() of the closed pool reports {S.f[2]!r} available object(s)', st))
         if out and any(not v.get('known') for v in out): return out
+        if 'C02' in O and not busy and not st.gget('close_started') and not st.gget('resizes'):
+            # "a get() that is waiting is completed as soon as capacity becomes free": at rest nobody may be queued for a slot while an
+            # object sits idle or fewer than max_size objects exist
+            q = s.queued_tasks(st)
+            inflight = [t for t in s.tasks if 'fut' in st.threads[t].local and t not in q]        # these hold (or were promised) a permit
+            if q and not inflight:
+                live = len(s.live_ids(st)); out_n = sum(len(st.threads[t].local['objs']) for t in s.tasks)
+                idle = live - out_n - s.in_progress_objs(st)
+                if idle > 0 or s.M.must(st, z(binop('Lt', I(live), st.gget('max_size')))):
+                    out.append(s.vio('C02', f'{q} wait(s) for a slot although {idle} object(s) are idle and only {live} exist: a waiter is stranded', st))
+                    return out
         if 'C11' in O and not s.any_lock_held(st): out.extend(s.check_status(st))
         if out: return out
         if 'C02' in O and s.cfg['probe'] and not busy: out.extend(s.probe(st))
